@@ -18,7 +18,7 @@ EXPLANATION = (
     "linearizability of the deque; moodycamel's ConcurrentQueue (third party) is not analysed.")
 ASSUMPTIONS = ["std::atomic<range>::compare_exchange_weak is atomic on the 64-bit range word", "tagged_ptr_pair::cas is a 128-bit compare-exchange"]
 THOROUGH_CONFIGS = [["-UNDEBUG", "-DPIKA_DEBUG"]]
-FLOORS = {"C17.R8": 4, "C17.R9": 20, "C17.R1": 6, "C17.R2": 2, "C17.R3": 3, "C17.R4": 12, "C17.R5": 9, "C17.R6": 1, "C17.R7": 2}
+FLOORS = {"C17.R8": 4, "C17.R9": 20, "C17.R1": 6, "C17.R2": 2, "C17.R3": 3, "C17.R4": 12, "C17.R5": 9, "C17.R6": 1, "C17.R7": 2, "C17.R11": 2}
 
 CIQ = "pika::concurrency::detail::contiguous_index_queue"
 _cache = {}
@@ -175,6 +175,10 @@ def run(rep, tier):
     rep.rule("C17.R3", "K9: range fits a lock-free 64-bit atomic")
     rep.rule("C17.R4", "K8/K6: deque: every anchor/link CAS changes the tag; success reported only after a successful anchor CAS; unstable push followed by stabilize")
     rep.rule("C17.R7", "K8 (interface agreement with boost's freelist_stack): the free lists behind the lock-free deque allocate and deallocate nodes with ThreadSafe = true")
+    rep.rule("C17.R11", "K3 (vendored FIFO queue, pairing on failure paths): ImplicitProducer::enqueue appends an entry to the producer's block index (insert_block_index_entry) before it "
+             "has a block and a constructed element for it; every way out that does not publish the element - no block available (return false), the element's constructor threw "
+             "(rethrow) - takes the entry back with rewind_block_index_tail(). A phantom entry with a null block shifts every later look-up by one: pops return other blocks' "
+             "elements, the real ones are lost, then a null block is dereferenced")
     rep.rule("C17.R6", "K8 (vendored FIFO queue, one structural clause only): when a producer's circular block index grows, the old ring is copied in logical order - the source position starts from the ring's tail and wraps around - not as a flat array (after the ring has rotated a flat copy permutes the blocks: FIFO order breaks, blocks are released early)")
     rep.rule("C17.R5", "K8: back-ends: one container operation per push/pop path; LIFO/FIFO/steal ends")
     index_queue_rules(rep, "C17.R1")
@@ -554,6 +558,37 @@ def run(rep, tier):
                     "%s calls %s<%s>: ThreadSafe = %s selects boost's non-atomic free-list operation, while the deque recycles nodes from several threads at once - a node that another "
                     "thread has just allocated is linked back into the free list and handed out twice (elements duplicated / lost, pops fail on a non-empty deque)"
                     % (fn.qname.rsplit("::", 2)[-2] + "::" + fn.qname.rsplit("::", 1)[-1], callee_short(ops_[0]), ", ".join(ta), ta[0]))
+
+    # ---- R11: the block index entry is taken back on every failure path
+    ENQ = facts(rep, driver("c17_queues.cpp"), [r"ConcurrentQueue::ImplicitProducer::enqueue$"])
+    enq = [f for f in ENQ.fns if f.pattern and f.parent == -1 and f.qname.endswith("ImplicitProducer::enqueue")]
+    if not enq:
+        raise AnalysisBroken("ConcurrentQueue::ImplicitProducer::enqueue (template pattern) not found")
+    n11 = 0
+    for fn in enq:
+        ins = [(b, i, e) for b, i, e in fn.all_events() if e.get("k") == "call" and callee_short(e) == "insert_block_index_entry"]
+        if not ins:
+            raise AnalysisBroken("ImplicitProducer::enqueue: insert_block_index_entry not found")
+        is_ins = lambda e: e.get("k") == "call" and callee_short(e) == "insert_block_index_entry"
+        is_rew = lambda e: e.get("k") == "call" and callee_short(e) == "rewind_block_index_tail"
+        ff11 = FactFlow(fn)
+        for b, i, e in fn.all_events():
+            failing = (e.get("k") == "return" and T(e.get("e")) == "false") or (e.get("k") == "throw")
+            if not failing or not precedes_on_all_paths(fn, is_ins, (b, i)):
+                continue
+            fb = ff11.before.get((b, i)) or frozenset()
+            if any((not t) and "insert_block_index_entry(" in a for a, t in fb):
+                continue                    # the insert itself failed: nothing to take back
+            n11 += 1
+            if precedes_on_all_paths(fn, is_rew, (b, i), reset_pred=is_ins):
+                rep.ok("C17.R11", fn, "the failure exit at %s takes the block index entry back" % loc_of(e).rsplit("/", 1)[-1])
+            else:
+                rep.bad("C17.R11", fn, loc_of(e), "index-entry-not-rewound:" + ("throw" if e.get("k") == "throw" else "return"), "ImplicitProducer::enqueue leaves at %s (%s) after "
+                        "insert_block_index_entry succeeded without rewind_block_index_tail(): the block index keeps a phantom entry with a null block, the next push at a block "
+                        "boundary appends a second entry with the same key and every queued element of this producer is looked up one slot off" % (
+                            loc_of(e).rsplit("/", 1)[-1], "the element's constructor threw" if e.get("k") == "throw" else "no block"))
+    if n11 < 2:
+        raise AnalysisBroken("C17.R11: only %d failure exits behind insert_block_index_entry found" % n11)
 
     # ---- R6: ring growth of the vendored concurrent queue's implicit producer (the one lockfree_fifo uses)
     NB = [f for f in D.find(r"ConcurrentQueue::ImplicitProducer::new_block_index$") if not f.pattern and f.parent == -1]
